@@ -130,6 +130,39 @@ SeqRange(q) == { q[i] : i \in 1 .. Len(q) }
 RECURSIVE SumLen(_, _)
 SumLen(f, r) == IF r = 0 THEN 0 ELSE Len(f[r]) + SumLen(f, r - 1)
 
+\* C05 : a phase of react() / query() stops as soon as a state consumes the event (handlers of that same state -
+\* its own and the injected ones - still run; nobody else does)
+OccAt(ev, i) == Cardinality({ j \in 1 .. i : ev[j][1] = ev[i][1] /\ ev[j][2] = ev[i][2] })
+Consumes(rec, i) == LET ops == HookOps(rec.sc, rec.ev[i][1], rec.ev[i][2], OccAt(rec.ev, i))
+                    IN \E j \in 1 .. Len(ops) : ops[j][1] = "consume"
+ConsumeStops(n, rec) ==
+    \A ph \in ReactMethods \cup {"query"} :
+        LET ev  == rec.ev
+            idx == { i \in 1 .. Len(ev) : Base(ev[i][2]) = ph }
+            cs  == { i \in idx : Consumes(rec, i) }
+        IN IF cs = {} THEN TRUE
+           ELSE LET c == CHOOSE i \in cs : \A j \in cs : i <= j
+                    late == { i \in idx : i > c /\ ev[i][1] # ev[c][1] }
+                IN IF late = {} THEN TRUE
+                   ELSE Fail(n, "mon.consume", <<ph, ev[c][1], { ev[i][1] : i \in late }>>)
+
+\* C12 : what the logger is told about random resolutions, judged on the observed data alone (holds for any utility
+\* arithmetic): every generator output consumed resolves one random region (never none), to a sub-state of the top
+\* rank, and never to a plain sub-state of zero utility
+ScRank(rec, k) == IF Overridden(k, "rank") THEN rec.sc.rank[k] ELSE 0
+RandomClauses(n, rec) ==
+    LET rn == SelectSeq(rec.log, LAMBDA r : r[1] = "rn" /\ r[3] # 0) IN
+    /\ IF Len(rn) = rec.draws THEN TRUE ELSE Fail(n, "mon.random.count", <<rec.draws, rn>>)
+    /\ \A i \in 1 .. Len(rn) :
+          LET h == rn[i][2]  p == rn[i][3] IN
+          IF h \notin States \/ p \notin 1 .. St[h].width THEN Fail(n, "mon.random.ids", rn[i])
+          ELSE LET kid == Kid(h, p)
+                   top == CHOOSE t \in { ScRank(rec, Kid(h, q)) : q \in 1 .. St[h].width } :
+                              \A q \in 1 .. St[h].width : ScRank(rec, Kid(h, q)) <= t
+               IN /\ IF ScRank(rec, kid) = top THEN TRUE ELSE Fail(n, "mon.random.rank", <<rn[i], top>>)
+                  /\ IF St[kid].kind = "S" /\ Overridden(kid, "utility") /\ rec.sc.util[kid][1] = 0
+                     THEN Fail(n, "mon.random.zero", rn[i]) ELSE TRUE
+
 PlanStorage(n, post) ==
     LET cap   == Len(post.tl)
         R     == 1 .. Len(post.tb)
@@ -170,7 +203,7 @@ Monitors(n, pre, m, rec, entered, src) ==
     \* C04 : in a processing step every guard precedes every lifecycle callback
     /\ IF ProcessingCall(rec.a) /\ ~GuardsBeforeLife(ev) THEN Fail(n, "mon.guards-first", Map(ev, Who)) ELSE TRUE
     \* C04 : a fully vetoed step changes neither configuration nor runs lifecycle callbacks
-    /\ IF ProcessingCall(rec.a) /\ ~pre[1] /\ FullyVetoed(m)
+    /\ IF Cfg.exact /\ ProcessingCall(rec.a) /\ ~pre[1] /\ FullyVetoed(m)
        THEN /\ Diff(n, "mon.veto.act", pre[2].act, post.act)
             /\ Diff(n, "mon.veto.res", pre[2].res, post.res)
             /\ Diff(n, "mon.veto.life", <<>>, Map(SelectSeq(ev, IsLife), Who))
@@ -181,6 +214,11 @@ Monitors(n, pre, m, rec, entered, src) ==
               Diff(n, "mon.reach", { s \in SetOfMask(pre[2].isA) : Overridden(s, ph) },
                    { ev[i][1] : i \in { j \in 1 .. Len(ev) : ev[j][2] = ph } })
        ELSE TRUE
+    /\ IF rec.a[1] \in {"react", "query"} /\ ~rec.quiet THEN ConsumeStops(n, rec) ELSE TRUE
+    \* C12 : random resolutions as the logger saw them (logger attached for the whole call)
+    /\ IF ~rec.quiet /\ HasLog /\ rec.a[1] \notin {"logger", "del", "copy"}
+          /\ (IF rec.a[1] = "new" THEN Len(rec.a) > 1 /\ rec.a[2] = 1 ELSE ~pre[1] /\ pre[2].lg = 1)
+       THEN RandomClauses(n, rec) ELSE TRUE
     \* C02 / C04 : no requested prong, remain mark or orthogonal request bit survives a call (a stale one would steer
     \* the next transition into that region)
     /\ IF rec.a[1] = "del" THEN TRUE
@@ -220,7 +258,10 @@ Monitors(n, pre, m, rec, entered, src) ==
     /\ IF rec.a[1] = "del" THEN TRUE
        ELSE IF post.strA = post.isA \/ ~Has("STRUCTURE_REPORT") THEN TRUE ELSE Fail(n, "mon.report", <<post.strA, post.isA>>)
 
+\* fixtures whose utilities are floats (Cfg.exact = FALSE): the specification's exact arithmetic is no oracle for them,
+\* so only the monitors - which judge the observed data alone - are evaluated (m is never computed)
 CheckRecord(n, pre, m, rec, entered, src) ==
+    IF ~Cfg.exact THEN Monitors(n, pre, m, rec, entered, src) ELSE
     /\ IF rec.a[1] = "del" THEN TRUE
        ELSE LET e == ToObs(m) IN
             /\ \A f \in Fields : Diff(n, f, e[f], rec.post[f])
@@ -268,17 +309,19 @@ TraceNext ==
            rec == IF rec0.quiet THEN [rec0 EXCEPT !.ev = m.ev, !.plog = IF Has("PLANS") THEN m.plog ELSE <<>>, !.log = m.log] ELSE rec0
            \* where an open finding's deviation switch mattered, the intended behaviour is acceptable too
            mI  == Step([FromObs(pre) EXCEPT !.dev = {}], rec.a, rec.sc)
-           e0  == IF rec.a[1] = "new" THEN {} ELSE IF rec.a[1] = "copy" THEN ent[rec.a[2]] ELSE ent[rec.i]
-           src == IF rec.a[1] = "replay" THEN <<obs[rec.a[2]], aux[rec.a[2]]>> ELSE <<BlankObs, <<>>>>
-       IN /\ IF m.notes = {} THEN CheckRecord(l, pre, m, rec, e0, src)
+           e0  == IF rec0.a[1] = "new" THEN {} ELSE IF rec0.a[1] = "copy" THEN ent[rec0.a[2]] ELSE ent[rec0.i]
+           src == IF rec0.a[1] = "replay" THEN <<obs[rec0.a[2]], aux[rec0.a[2]]>> ELSE <<BlankObs, <<>>>>
+           evs == IF rec0.quiet /\ Cfg.exact THEN m.ev ELSE rec0.ev
+       IN /\ IF ~Cfg.exact THEN CheckRecord(l, pre, m, rec0, e0, src)
+             ELSE IF m.notes = {} THEN CheckRecord(l, pre, m, rec, e0, src)
              ELSE IF Agrees(m, rec) THEN CheckRecord(l, pre, m, rec, e0, src) /\ PrintT(<<"NOTE", l, m.notes>>)
              ELSE IF Agrees(mI, rec) THEN CheckRecord(l, pre, mI, rec, e0, src)
              \* neither: judged against the code's known behaviour, so that the open finding does not show up as a
              \* second, unrelated difference of this record
              ELSE CheckRecord(l, pre, m, rec, e0, src)
-          /\ aux' = [aux EXCEPT ![rec.i] = m.rounds]
-          /\ obs' = [obs EXCEPT ![rec.i] = PostOf(rec)]
-          /\ ent' = [ent EXCEPT ![rec.i] = BalancedRun(e0, rec.ev).ent]
+          /\ aux' = [aux EXCEPT ![rec0.i] = IF Cfg.exact THEN m.rounds ELSE <<>>]
+          /\ obs' = [obs EXCEPT ![rec0.i] = PostOf(rec0)]
+          /\ ent' = [ent EXCEPT ![rec0.i] = BalancedRun(e0, evs).ent]
     /\ l' = l + 1
 
 TraceSpec == TraceInit /\ [][TraceNext]_<<l, obs, ent, aux>>
